@@ -111,9 +111,9 @@ def matrix_part(j, cases):
         c = e["call"]
         if c["op"] != "mat":
             continue
-        name = c["name"]
-        cid = (name, "matrix")
-        m = al._mats()
+        name, kind = c["name"], c["kind"]
+        cid = (name, "matrix", kind)
+        m = al._mats(kind)
         before = {k: snap(v) for k, v in m.items()}
         try:
             r1, args = al.MAT[name](m)
@@ -124,16 +124,16 @@ def matrix_part(j, cases):
         n += 1
         after = {k: snap(v) for k, v in m.items()}
         if before != after:
-            j.fail("%s|%s|matrix|argument-modified" % (PID, name),
-                   {"kind": "matrix", "name": name, "changed": [k for k in m if before[k] != after[k]]}, cid)
+            j.fail("%s|%s|matrix;%s|argument-modified" % (PID, name, kind),
+                   {"kind": "matrix", "name": name, "matkind": kind, "changed": [k for k in m if before[k] != after[k]]}, cid)
             continue
-        m2 = al._mats()
+        m2 = al._mats(kind)
         try:
             r2, _ = al.MAT[name](m2)
         except Exception:  # noqa: BLE001
             r2 = None
         if not same_result(r1, r2):
-            j.fail("%s|%s|matrix|not-deterministic" % (PID, name), {"kind": "matrix", "name": name}, cid)
+            j.fail("%s|%s|matrix;%s|not-deterministic" % (PID, name, kind), {"kind": "matrix", "name": name, "matkind": kind}, cid)
         else:
             j.ok(cid)
     return n
@@ -199,16 +199,42 @@ SKIP_METHODS = {"plot", "animate", "printline", "Rand", "append", "extend", "ins
 MUTATORS = {"append", "extend", "insert", "pop", "clear", "reverse", "remove", "sort"}
 
 
+def _special_so3():
+    import gamma
+    import math as _m
+    u = np.array([0.6, 0.0, 0.8])
+    return [np.eye(3), gamma.rotx(_m.pi), 2 * np.outer(u, u) - np.eye(3)]
+
+
+def _special_se3():
+    out = []
+    for k, R in enumerate(_special_so3()):
+        T = np.eye(4)
+        T[:3, :3] = R
+        T[:3, 3] = [k, -1.0, 2.0]
+        out.append(T)
+    return out
+
+
+SPECIAL = {"SO3": _special_so3, "SE3": _special_se3,
+           "UnitQuaternion": lambda: [np.array([1.0, 0, 0, 0]), np.array([0.0, 1, 0, 0]), np.array([0.0, 0.6, 0, 0.8])],
+           "SO2": lambda: [np.eye(2), -np.eye(2), np.array([[0.0, -1], [1, 0]])],
+           "SE2": lambda: [np.eye(3), np.array([[-1.0, 0, 1], [0, -1, 2], [0, 0, 1]]), np.array([[0.0, -1, 0], [1, 0, 3], [0, 0, 1]])]}
+
+
 def reflection_part(j):
     n = 0
     for cname in elems.MAIN8 + elems.EXTRA + ["SpatialInertia"]:
         C = elems.CLS[cname]
-        for m in (1, 3):
+        for m in (1, 2, 3):
             names = [a for a in dir(C) if not a.startswith("_")]
             for name in names:
                 if name in SKIP_METHODS:
                     continue
                 x = elems.inject(cname, list(range(1, m + 1)))
+                special = SPECIAL.get(cname)
+                if special is not None and m == 3:
+                    x.data = [a.copy() for a in special()]         # identity / quarter / half turn values
                 before = snap(x)
                 try:
                     attr = inspect.getattr_static(C, name)
